@@ -66,3 +66,68 @@ func H_C13_read(enc, provider int) {
 	}
 	verifCover("read")
 }
+
+// H_C13_sched: exclusive use under concurrency, on the value level (bounded interleaving exploration, DESIGN 2.8b).
+// Threads use the provider through the ledger, every provider call being a point where the scheduler may switch.
+// provider as in vProvider; kind 0 gzip writer, 1 zlib writer, 2 gzip reader: each thread acquires, works, releases;
+// kind 3: two encoded responses through a container (gzip), kind 4: the same with deflate; pre: preemption bound
+func H_C13_sched(provider, nthreads, kind, pre int) {
+	led := vNewLedger(vProvider(provider))
+	led.yield = true
+	old := currentCompressorProvider
+	SetCompressorProvider(led)
+	defer SetCompressorProvider(old)
+	var recs []*vRec
+	if kind >= 3 {
+		c := NewContainer()
+		c.EnableContentEncoding(true)
+		ws := new(WebService)
+		ws.Path("/t")
+		ws.Route(ws.GET("/{v}").To(func(req *Request, resp *Response) {
+			resp.Write([]byte("<" + req.PathParameter("v")))
+			resp.Write([]byte(">"))
+		}))
+		c.Add(ws)
+		ae := "gzip"
+		if kind == 4 {
+			ae = "deflate"
+		}
+		for t := 0; t < nthreads; t++ {
+			rec := vNewRec()
+			recs = append(recs, rec)
+			req := vHdrReq("GET", "/t/p"+vItoa(t), map[string]string{"Accept-Encoding": ae})
+			verifSpawn(func() { c.Dispatch(rec, req) })
+		}
+	} else {
+		for t := 0; t < nthreads; t++ {
+			verifSpawn(func() {
+				switch kind {
+				case 0:
+					w := led.AcquireGzipWriter()
+					verifYield() // works with it
+					led.ReleaseGzipWriter(w)
+				case 1:
+					w := led.AcquireZlibWriter()
+					verifYield()
+					led.ReleaseZlibWriter(w)
+				case 2:
+					r := led.AcquireGzipReader()
+					verifYield()
+					led.ReleaseGzipReader(r)
+				}
+			})
+		}
+	}
+	verifRunSchedules(pre, vMsgStuck13)
+	verifCover("ran")
+	verifAssert(!led.shared, "C13: a provider handed out an object that is still in use")
+	verifAssert(led.clean(), "C13: a compressor was lost, released twice or used after release")
+	for t, rec := range recs {
+		ce := vHdr1(rec, "Content-Encoding")
+		payload, ok := verifDecodeBody(rec.chunks, ce)
+		verifObserveStr("payload"+vItoa(t), string(payload))
+		verifObserveStr("coding"+vItoa(t), ce)
+		verifObserveInt("status"+vItoa(t), rec.code())
+		verifAssert(ce != "" && ok && string(payload) == "<p"+vItoa(t)+">", "C13: concurrent encoded responses do not each decode to their own payload")
+	}
+}
